@@ -1425,6 +1425,12 @@ impl ProtocolState {
 
                 if let Err(error) = validate_packet_outbound_internal(packet, &validation_context) {
                     warn!("[{} ms] service_queue - {} operation {} failed last-chance validation", self.elapsed_time_ms, mqtt_packet_to_str(packet), current_operation_id);
+                    if outbound_alias_resolution.alias.is_some() {
+                        // the resolver has already recorded a binding for a packet that will never be sent;
+                        // forget all bindings so that later publishes re-establish them on the wire
+                        let topic_alias_maximum = self.current_settings.as_ref().map_or(0, |settings| settings.topic_alias_maximum_to_server);
+                        self.outbound_alias_resolver.borrow_mut().reset_for_new_connection(topic_alias_maximum);
+                    }
                     self.current_operation = None;
                     self.complete_operation_as_failure(current_operation_id, error)?;
                     continue;
